@@ -320,7 +320,7 @@ def decorate(rng, base, gentle=False):
 def gen_edge_prog(rng):
     """directed family around the CHECKED cursor arithmetic and the bank checks: `#addr` at the ends of a bank's range and
     where delta x unit overflows usize, `#res` whose size x unit is huge, negative / huge bank addresses, `labelalign`
-    and `#align` that are not multiples of the unit, zero-sized data (F49), bank windows whose end overflows (F48, fixed), unrepresentable output positions (F61, fixed).
+    and `#align` that are not multiples of the unit, zero-sized data (F49, fixed), bank windows whose end overflows (F48, fixed), unrepresentable output positions (F61, fixed).
     A huge position is always followed by a WRITTEN item (only writes are range-checked; see the note on
     Model/Output.check_bank_output in the Resolver2 report)."""
     p = Prog2(asm_gen.Isa())
@@ -380,7 +380,7 @@ def gen_edge_prog(rng):
         if rng.chance(0.4):
             it.append(('bank', 'b')); it.append(('data', 1, ['1']))
     elif k < 92:
-        # zero-sized written items (F49)
+        # regression for F49 (fixed): zero-sized written items write nothing and do not extend the output
         if rng.chance(0.5):
             it.append(('bankdef', 'a', {'bits': str(u), 'addr': hx(rng.choice([0, 0x10])), 'outp': hx(rng.choice([0, 8])), 'size': '0x100'}))
         it.append(('addr', hx(rng.choice([0x10, 0x11, 0x20]))))
